@@ -32,6 +32,24 @@ structure Facts where
   mergeErrorsReturned : Bool
   /-- `mergeRoots`: a listed name found nowhere is skipped only when `skipUnreadable` -/
   missingSkippedOnlyIfSkipUnreadable : Bool
+  /-- `loadRootFromAny`: the condition under which the next location is tried -/
+  loadAnySkipCond : String
+  loadAnyReturnsOtherErrors : Bool
+  /-- `Insert`/`Update`/`Delete`/`Commit`/`Filter`/`Next`: every storage call is followed by `if err != nil { return … }` -/
+  statementErrorsPropagate : Bool
+  changesErrorsPropagate : Bool
+  /-- `VirtualTable.Begin/Commit/Rollback` (vtable_common.go): snapshot by `Clone`, restored unconditionally by `Rollback`, dropped by `Commit` only on success -/
+  beginClonesTree : Bool
+  rollbackRestoresSnapshot : Bool
+  commitKeepsSnapshotOnError : Bool
+  /-- connection attributes (sqlite/vtable.go, s3db_conn.go, vtable_common.go `updateTime`) -/
+  beginFixesWriteTime : Bool
+  endOfTxReleasesWriteTime : Bool
+  connUpdateParsesBeforeAssigning : Bool
+  /-- `ConnCursor.Column` returns nothing for an attribute an UPDATE does not mention -/
+  connColumnHonoursNoChange : Bool
+  resetContextAsExpected : Bool
+  updateTimePrefersContext : Bool
   /-- `Open`: historic opens pass `skipUnreadable = false`, listing opens `true` -/
   historicFailsOnMissing : Bool
   /-- `Open`: `s.Commit` is called only under `if !opts.ReadOnly` -/
